@@ -562,4 +562,181 @@ theorem session_sim (env : Env) (f : Nat) (hf : 0 < f) (orig : Word) : ∀ cs : 
         rw [hnx] at hpre
         exact SimRes.cons (c := c0) hnc2 hle hat2 hpre
 
+/-! ### From the simulation to statements about sessions of any length -/
+
+/-- A session that has ended within `n` iterations ended as the reference says (the reference
+given enough fuel per command); it cannot be that the reference is still running. -/
+theorem sim_final {env : Env} {f : Nat} {c : Cfg} {d' : Dbg} {R : Result} (h : SimRes env f c d' R)
+    (n : Nat) (hn : n + c.d.nexec ≤ f) (hfin : isFuel (runObs env n c).1 = false) :
+    match R.final with
+    | .exited m' w' => ∃ dF exF,
+        runObs env n c = (.done true dF m' w' exF, R.log.reverse ++ pend c d') ∧ Book c d' dF exF R.log R.executed
+    | .ended code m' w' => ∃ dF exF,
+        runObs env n c = (.exit code true dF m' w' exF, R.log.reverse ++ pend c d') ∧ Book c d' dF exF R.log R.executed
+    | .panic s => (runObs env n c).1 = .panic s
+    | .fuel _ _ => False := by
+  unfold SimRes at h
+  cases hR : R.final <;> rw [hR] at h <;> simp only [SimFin] at h ⊢
+  · obtain ⟨k, dF, exF, h1, hb⟩ := h
+    exact ⟨dF, exF, by rw [← runObs_stable env n c hfin k, h1 n], hb⟩
+  · obtain ⟨k, dF, exF, h1, hb⟩ := h
+    exact ⟨dF, exF, by rw [← runObs_stable env n c hfin k, h1 n], hb⟩
+  · obtain ⟨k, sh', h1⟩ := h
+    rw [← runObs_stable env n c hfin k, h1 n]
+  · obtain ⟨k, dF, exF, h1, hb, hfu⟩ := h
+    have e1 := h1 0
+    rw [Nat.zero_add] at e1
+    have hl := runObs_fuel_len env k c true dF _ _ exF _ e1
+    have hex := hb.ex
+    have hk : n ≤ k := by omega
+    have e2 := runObs_stable env n c hfin (k - n)
+    rw [show n + (k - n) = k by omega, e1] at e2
+    rw [← e2] at hfin
+    simp [runObs, isFuel] at hfin
+
+/-- The session of C10: the debugger as `Debugger::new` creates it, on the script followed by
+`exit`, attached to the machine `m`. -/
+def session (initial : Machine) (bpsRel : List Word) (cs : List Command) (m : Machine) (w : World) : Cfg :=
+  ⟨true, newDbg initial bpsRel (cs ++ [.exit]), m, w, [], []⟩
+
+/-- The reference's reading of the same session (`fuel` instructions at most per command). -/
+def refSession (env : Env) (fuel : Nat) (initial : Machine) (bpsRel : List Word) (cs : List Command)
+    (m : Machine) (w : World) : Result :=
+  runScript env.stackOn env.minimal fuel 0 (cs.map (toRef env initial.pc))
+    (BpSet.ofList (bpsRel.map (· + initial.pc))) m w
+
+/-- Counts of a model session against a reference result. -/
+structure Tally (d : Dbg) (ex : List Word) (R : Result) : Prop where
+  /-- instructions executed -/
+  executed : ex.length = R.executed
+  /-- the model's own event log: instructions executed before each command read -/
+  cmdAt : d.cmdAt.reverse = R.log.map (·.executed)
+  ncmds : d.ncmds = R.log.length
+
+/-- **Agreement** of a model session (`runObs`: the result of `runLoop` and the machine shown at
+every command read, newest first) with a reference result: same way of ending, same final
+machine and world, same number of instructions, same event log, same machine at every pause. -/
+def Agree (r : DbgRun × List Entry) (R : Result) : Prop :=
+  match R.final with
+  | .exited m w => ∃ d ex, r = (.done true d m w ex, R.log.reverse) ∧ Tally d ex R
+  | .ended code m w => ∃ d ex, r = (.exit code true d m w ex, R.log.reverse) ∧ Tally d ex R
+  | .panic s => r.1 = .panic s
+  | .fuel m w => ∃ d ex, r = (.fuel true d m w ex, R.log.reverse) ∧ Tally d ex R
+
+theorem session_simres (env : Env) (f : Nat) (hf : 0 < f) (initial : Machine) (bpsRel : List Word)
+    (cs : List Command) (hcs : ∀ x ∈ cs, InAlphabet x = true) (m : Machine) (w : World) :
+    SimRes env f (session initial bpsRel cs m w) (preamble (session initial bpsRel cs m w).d m)
+      (refSession env f initial bpsRel cs m w) := by
+  have hk := preamble_keep (session initial bpsRel cs m w).d m
+  exact session_sim env f hf initial.pc cs hcs _ (session initial bpsRel cs m w) _ _ rfl
+    (asks_of_wait env _ m w (preamble_wait _ m rfl)) (by rw [hk.1.cmds]; rfl)
+    (by rw [hk.1.bps]; exact bpRel_ofList initial.pc bpsRel) hk.2.1
+    (by rw [hk.1.ncmds]; exact Nat.le_refl _) (by show (preamble _ m).initial.pc = _; rw [hk.1.initial]; rfl)
+
+theorem pend_session (initial : Machine) (bpsRel : List Word) (cs : List Command) (m : Machine) (w : World) :
+    pend (session initial bpsRel cs m w) (preamble (session initial bpsRel cs m w).d m) = [] := by
+  have hk := preamble_keep (session initial bpsRel cs m w).d m
+  unfold pend
+  rw [hk.1.ncmds]
+  simp [session]
+
+theorem tally_of_book (initial : Machine) (bpsRel : List Word) (cs : List Command) (m : Machine) (w : World)
+    (dF : Dbg) (exF : List Word) (R : Result)
+    (hb : Book (session initial bpsRel cs m w) (preamble (session initial bpsRel cs m w).d m) dF exF R.log R.executed) :
+    Tally dF exF R := by
+  have hk := preamble_keep (session initial bpsRel cs m w).d m
+  obtain ⟨h1, h2, h3⟩ := hb
+  rw [hk.1.cmdAt] at h1
+  rw [hk.1.ncmds] at h2
+  refine ⟨?_, ?_, ?_⟩
+  · simpa [session, newDbg] using h3
+  · rw [h1]; simp [session, newDbg]
+  · rw [h2]; simp [session, newDbg]
+
+/-- **C10 — refinement, model ⇒ reference.** Take any program state `m`, world, assembler
+environment, `.break` list and any script over {step, step into k (k ≥ 1: a count of 0 is read
+as 1), step out, continue, break add l, break remove l}, followed by `exit`.  If the model
+session ends within `n` iterations of `RunEnvironment::run` (by the `exit` command, or because
+an instruction ended the process, or in lace's RTI `todo!()`), then the reference debugger, given
+at least `n` instructions of fuel per command, ends too, and the two agree: same ending, same
+final machine and world, same number of instructions executed, same event log (instructions
+executed before each command read), and the same machine in front of the user at every command
+read. -/
+theorem stepping_refines_reference (env : Env) (initial : Machine) (bpsRel : List Word) (cs : List Command)
+    (hcs : ∀ x ∈ cs, InAlphabet x = true) (m : Machine) (w : World) (n f : Nat) (hnf : n ≤ f)
+    (hfin : isFuel (runObs env n (session initial bpsRel cs m w)).1 = false) :
+    Agree (runObs env n (session initial bpsRel cs m w)) (refSession env f initial bpsRel cs m w) := by
+  have hn0 : 0 < n := by
+    cases n with
+    | zero => simp [runObs, isFuel] at hfin
+    | succ k => omega
+  have hs := session_simres env f (by omega) initial bpsRel cs hcs m w
+  have hfinal := sim_final hs n (by show n + 0 ≤ f; omega) hfin
+  rw [pend_session] at hfinal
+  unfold Agree
+  cases hR : (refSession env f initial bpsRel cs m w).final <;> rw [hR] at hfinal <;> simp only at hfinal ⊢
+  · obtain ⟨dF, exF, h1, hb⟩ := hfinal
+    exact ⟨dF, exF, by simpa using h1, tally_of_book initial bpsRel cs m w dF exF _ hb⟩
+  · obtain ⟨dF, exF, h1, hb⟩ := hfinal
+    exact ⟨dF, exF, by simpa using h1, tally_of_book initial bpsRel cs m w dF exF _ hb⟩
+  · exact hfinal
+
+/-- **C10 — refinement, reference ⇒ model.** If the reference run ends (all commands done and
+`exit`, or an instruction ended the process), then there is a number of iterations after which
+every model session has ended, in agreement with it. -/
+theorem reference_refines_stepping (env : Env) (initial : Machine) (bpsRel : List Word) (cs : List Command)
+    (hcs : ∀ x ∈ cs, InAlphabet x = true) (m : Machine) (w : World) (f : Nat) (hf : 0 < f)
+    (hfin : ∀ m' w', (refSession env f initial bpsRel cs m w).final ≠ .fuel m' w') :
+    ∃ k, ∀ n, k ≤ n →
+      Agree (runObs env n (session initial bpsRel cs m w)) (refSession env f initial bpsRel cs m w) := by
+  have hs := session_simres env f hf initial bpsRel cs hcs m w
+  unfold SimRes at hs
+  unfold Agree
+  cases hR : (refSession env f initial bpsRel cs m w).final <;> rw [hR] at hs <;>
+    simp only [SimFin, pend_session] at hs ⊢
+  · obtain ⟨k, dF, exF, h1, hb⟩ := hs
+    refine ⟨k, fun n hn => ⟨dF, exF, ?_, tally_of_book initial bpsRel cs m w dF exF _ hb⟩⟩
+    have := h1 (n - k)
+    rw [show n - k + k = n by omega] at this
+    simpa using this
+  · obtain ⟨k, dF, exF, h1, hb⟩ := hs
+    refine ⟨k, fun n hn => ⟨dF, exF, ?_, tally_of_book initial bpsRel cs m w dF exF _ hb⟩⟩
+    have := h1 (n - k)
+    rw [show n - k + k = n by omega] at this
+    simpa using this
+  · obtain ⟨k, sh', h1⟩ := hs
+    refine ⟨k, fun n hn => ?_⟩
+    have := h1 (n - k)
+    rw [show n - k + k = n by omega] at this
+    rw [this]
+  · exact absurd hR (hfin _ _)
+
+/-- **C10 — fuel exhaustion on the reference side.** If a command of the reference run is still
+running after `f` instructions, then there is a model session of `k ≥ f` iterations that is still
+running too (attached, not waiting for a command), having read the same commands, shown the
+same machines, executed the same number of instructions (at least `f`) and standing at the same
+machine. -/
+theorem reference_fuel_refines_stepping (env : Env) (initial : Machine) (bpsRel : List Word) (cs : List Command)
+    (hcs : ∀ x ∈ cs, InAlphabet x = true) (m : Machine) (w : World) (f : Nat) (hf : 0 < f)
+    (m' : Machine) (w' : World) (hfu : (refSession env f initial bpsRel cs m w).final = .fuel m' w') :
+    ∃ k, f ≤ k ∧
+      Agree (runObs env k (session initial bpsRel cs m w)) (refSession env f initial bpsRel cs m w) ∧
+      f ≤ (refSession env f initial bpsRel cs m w).executed := by
+  have hs := session_simres env f hf initial bpsRel cs hcs m w
+  unfold SimRes at hs
+  rw [hfu] at hs
+  simp only [SimFin, pend_session] at hs
+  obtain ⟨k, dF, exF, h1, hb, hle⟩ := hs
+  have e1 := h1 0
+  rw [Nat.zero_add] at e1
+  have hl := runObs_fuel_len env k _ true dF _ _ exF _ e1
+  have ht := tally_of_book initial bpsRel cs m w dF exF _ hb
+  refine ⟨k, ?_, ?_, hle⟩
+  · have := ht.executed
+    simp only [session, List.length_nil] at hl
+    omega
+  · unfold Agree
+    rw [hfu]
+    exact ⟨dF, exF, by simpa [runObs] using e1, ht⟩
+
 end Lace.C10
